@@ -1,6 +1,6 @@
 (* C15 (scoping): invariants of the parsed state and well-scopedness of the emission event lists. *)
 From Coq Require Import ZArith List Bool String Lia Arith PeanoNat.
-From Defs Require Import Gen.TypeTables Model.Layout Model.Emit Proofs.EmitCombined.
+From Defs Require Import Gen.TypeTables Gen.EmitGuards Model.Layout Model.Emit Proofs.EmitCombined.
 Import ListNotations.
 Open Scope string_scope. Open Scope list_scope. Open Scope Z_scope.
 
@@ -127,7 +127,7 @@ Proof.
   unfold resolve_field in E. destruct (existsb (String.eqb (fd_name d)) reserved_field_names); [discriminate|].
   destruct (resolve_ftype al ss ms (fd_type d)) as [[[k sz] a]|k|k] eqn:Et; try discriminate.
   destruct (fd_len d) as [e|].
-  - destruct (ceval cs e) as [v|]; [|discriminate]. destruct (v <? 1); [discriminate|].
+  - destruct (leval cs e) as [v|]; [|discriminate]. destruct (v <? add_fields_length_min); [discriminate|].
     inversion E; subst. eapply resolve_ftype_fin; eauto.
   - inversion E; subst. eapply resolve_ftype_fin; eauto.
 Qed.
